@@ -156,6 +156,7 @@ def cases(ctx):
     yield from tsuite.corpus()
     n = 800 if ctx.tier == 'quick' else 8000
     yield from tsuite.random_cases(ctx, n, focus=[3, 6], hi=6, floor_bias=0.6, state_fix=state_fix)
+    yield from tsuite.wrap_cases(ctx, n // 4, focus=[3, 6])
 
 
 def run(ctx):
